@@ -257,6 +257,45 @@ def oracle(p):
             except Exception as e:  # noqa
                 fail("C05:Image.sample:linear:border:raises", f"raises {type(e).__name__}: {str(e)[:120]}", src=sd)
 
+    # mixed align_corners flags whose cube extents coincide: spacing_a * (n_a - 1) == spacing_b * n_b on every axis, same centre
+    # and orientation (e.g. 10 x 8 samples with align_corners=False and 11 x 9 samples of the same spacing with align_corners=True)
+    for D in (2, 3):
+        for k, (n_nac, sp_nac, n_ac, sp_ac) in enumerate([([10, 8, 5], [1.0, 1.5, 2.0], [11, 9, 6], [1.0, 1.5, 2.0]),
+                                                          ([12, 12, 6], [1.0, 1.0, 1.0], [13, 7, 4], [1.0, 2.0, 2.0])]):
+            dirn = rand_dir(rng, D)
+            cen = [1.0, -2.0, 0.5][:D]
+            g_nac = dict(size=n_nac[:D], spacing=sp_nac[:D], center=cen, direction=dirn, align_corners=False)
+            g_ac = dict(size=n_ac[:D], spacing=sp_ac[:D], center=cen, direction=dirn, align_corners=True)
+            for sd, td in ((g_nac, g_ac), (g_ac, g_nac)):
+                for mode in ("linear", "nearest"):
+                    ctx = dict(src=sd, tgt=td, mode=mode, padding="border")
+                    try:
+                        src, tgt = mk(sd), mk(td)
+                        data = ((torch.randn((1,) + tuple(src.shape), dtype=torch.float64) * 32).round() / 8)
+                        ref, _ = sitk_resample(src, data, tgt, mode, 0.0)
+                        x = src_index_f64(src, tgt)
+                        n = torch.tensor([float(v) for v in src.size()], dtype=torch.float64)
+                        sel = ((x >= 0) & (x <= n - 1)).all(dim=-1)
+                        if mode == "nearest":
+                            sel = sel & ~((x - torch.floor(x) - 0.5).abs() < 2e-3).any(dim=-1)
+                        tol = 2e-4 * (float(data.abs().max()) + 1)
+                        outs = {"Image.sample": Image(data, src).sample(tgt, mode=mode, padding="border").tensor().double()[0],
+                                "ImageBatch.sample": ImageBatch(data.unsqueeze(0), src).sample(tgt, mode=mode, padding="border").tensor().double()[0, 0],
+                                "SampleImage": SampleImage(tgt, src, sampling=mode, padding="border")(
+                                    tgt.coords(align_corners=tgt.align_corners()).unsqueeze(0), data.unsqueeze(0).float()).double()[0, 0],
+                                "AlignImage": AlignImage(tgt, src, sampling=mode, padding="border")(None, data.unsqueeze(0).float()).double()[0, 0]}
+                        counts["coincident_extents"] = counts.get("coincident_extents", 0) + 1
+                        for nm, got in outs.items():
+                            diff = (got - torch.from_numpy(ref)).abs()
+                            if bool((diff[sel] > tol).any()):
+                                j = torch.nonzero((diff > tol) & sel)[0].tolist()
+                                fail(f"C05:{nm}:{mode}:vs-itk:coincident-extents",
+                                     f"mixed align_corners flags with coinciding cube extents: differs from sitk.Resample at target sample {j[::-1]} "
+                                     f"(x,..): deepali {float(got[tuple(j)]):.6g} ITK {float(ref[tuple(j)]):.6g}, source index {x[tuple(j)].tolist()}",
+                                     data=data.tolist(), **ctx)
+                    except Exception as e:  # noqa
+                        fail(f"C05:coincident-extents:{mode}:raises", f"raises {type(e).__name__}: {str(e)[:120]}", **ctx)
+
     for it in range(p["n"]):
         D = 2 if rng.random() < .55 else 3
         maxn = 12 if D == 2 else 7
@@ -401,6 +440,20 @@ def oracle(p):
                 m = cls(tgt, src, axes=None if axn is None else AX[axn], sampling=mode, padding=pad_arg(padding))
                 if cls is SampleImage:
                     om = m(tgt.points(m.axes()).unsqueeze(0), x32)
+                    if axn is None:
+                        # documented default: points are normalised coordinates of the target grid w.r.t. the cube convention
+                        # of target.align_corners(); coordinates supplied by the caller (not derived from m.axes())
+                        if m.axes() != Axes.from_grid(tgt):
+                            fail("C05:SampleImage:default-axes", f"default axes {m.axes()} for a target with align_corners="
+                                 f"{tgt.align_corners()} (documented: {Axes.from_grid(tgt)})", **ctx)
+                        oc_ = m(tgt.coords(align_corners=tgt.align_corners()).unsqueeze(0), x32)
+                        dmc = (oc_.double()[0, 0] - torch.from_numpy(refm)).abs()
+                        if bool((dmc[sel] > tol).any()):
+                            j = torch.nonzero((dmc > tol) & sel)[0].tolist()
+                            fail(f"C05:SampleImage:default:caller-coords:{mode}:vs-itk",
+                                 f"SampleImage(target, source)(target.coords(align_corners={tgt.align_corners()}), image) differs from "
+                                 f"sitk.Resample at target sample {j[::-1]} (x,..): deepali {float(oc_.double()[0, 0][tuple(j)]):.6g} "
+                                 f"ITK {float(refm[tuple(j)]):.6g}", data=data.tolist(), **ctx)
                 else:
                     om = m(None, x32)
                 dm = (om.double()[0, 0] - torch.from_numpy(refm)).abs()
